@@ -65,3 +65,7 @@ Definition chain_path0 (s : kstep) (r : list rstep) : list N := rec_body s ++ re
 (* the same path with blanks before and after *)
 Definition blanks (n : nat) : list N := repeat 32 n.
 Definition padded_path (n1 n2 : nat) (steps : list rstep) : list N := blanks n1 ++ chain_path steps ++ blanks n2.
+(* trailing functions:  .name()  *)
+Definition fun_text (f : list N) : list N := 46 :: f ++ [40; 41].
+Definition render_funs (fs : list (list N)) : list N := flat_map fun_text fs.
+Definition chain_fun_path (steps : list rstep) (fs : list (list N)) : list N := chain_path steps ++ render_funs fs.
